@@ -41,7 +41,8 @@ func membershipOK(st *engine.PathState, allowField *types.Var, user func(ssa.Val
 		if s, ok := engine.ConstString(a1); ok && s == "*" {
 			return true
 		}
-		if user(a1) {
+		// inside an inlined helper the argument is the helper's parameter: resolve it to the caller's value
+		if user(a1) || user(engine.Unwrap(st.Resolve(a1))) {
 			return true
 		}
 	}
@@ -58,8 +59,11 @@ func signatureOK(c *engine.Ctx, st *engine.PathState, skField *types.Var, ts, si
 			return false
 		}
 		lf, _ := engine.LoadedField(kc.Call.Args[0])
-		return lf == skField && ts(engine.Unwrap(kc.Call.Args[1]))
+		a1 := engine.Unwrap(kc.Call.Args[1])
+		return lf == skField && (ts(a1) || ts(engine.Unwrap(st.Resolve(a1))))
 	}
+	sign0 := sign
+	sign = func(v ssa.Value) bool { return sign0(v) || sign0(engine.Unwrap(st.Resolve(v))) }
 	for _, l := range st.Lits {
 		if !l.Val {
 			continue
@@ -435,6 +439,9 @@ func runC08(c *engine.Ctx) {
 		}
 	}
 	c.Floor(n, 1)
+
+	// ---- R6 wrapper stacks (shared with C01.R1 / C05.R5) ----
+	checkStacks(c, "R6")
 }
 
 func allAnon(f *ssa.Function) []*ssa.Function {
